@@ -741,6 +741,73 @@ fn main() {
         repro();
         return;
     }
+    if std::env::args().any(|a| a == "--bench") {
+        // CPU cost model (debug aid): sample every deviation class of every seed, measure user+sys CPU of
+        // this process and its children per case, extrapolate to the class sizes
+        let tier = if std::env::args().any(|a| a == "thorough") { Tier::Thorough } else { Tier::Quick };
+        let _ = THOROUGH.set(tier == Tier::Thorough);
+        let only = arg_after("--only-format");
+        let per_class: u64 = arg_after("--samples").and_then(|x| x.parse().ok()).unwrap_or(16);
+        let cpu = || {
+            let mut t = 0.0;
+            for who in [libc::RUSAGE_SELF, libc::RUSAGE_CHILDREN] {
+                let mut ru: libc::rusage = unsafe { std::mem::zeroed() };
+                unsafe { libc::getrusage(who, &mut ru) };
+                t += ru.ru_utime.tv_sec as f64 + ru.ru_utime.tv_usec as f64 * 1e-6 + ru.ru_stime.tv_sec as f64 + ru.ru_stime.tv_usec as f64 * 1e-6;
+            }
+            t
+        };
+        let mut grand = 0.0;
+        let mut grand_cases = 0u64;
+        for f in all_formats() {
+            if only.as_ref().map(|o| !o.split(',').any(|x| x == f.name())).unwrap_or(false) {
+                continue;
+            }
+            let sp = FormatSpace::new(f, tier);
+            let mut fmt_total = 0.0;
+            let mut by_class: std::collections::BTreeMap<&str, (f64, u64)> = Default::default();
+            for (k, x) in sp.spaces.iter().enumerate() {
+                let base = sp.cum[k];
+                let vv = (VALS2.len() * VALS2.len()) as u64;
+                let classes: [(&str, u64); 7] = [
+                    ("seed", 1),
+                    ("prefix", x.prefixes.len() as u64),
+                    ("field", (x.field_sites.len() * x.vals.len()) as u64),
+                    ("chunk", x.chunk_ops.len() as u64),
+                    ("pair", x.pairs() * vv),
+                    ("near", x.near_cases()),
+                    ("append", x.appends as u64),
+                ];
+                let mut off = 0u64;
+                let mut seed_total = 0.0;
+                for (name, n) in classes {
+                    if n > 0 {
+                        let m = per_class.min(n);
+                        let t0 = cpu();
+                        for j in 0..m {
+                            let i = base + off + (j * (n - 1)) / m.max(2).saturating_sub(1).max(1);
+                            let _ = sp.run(i.min(base + off + n - 1));
+                        }
+                        let avg = (cpu() - t0) / m as f64;
+                        let e = by_class.entry(name).or_insert((0.0, 0));
+                        e.0 += avg * n as f64;
+                        e.1 += n;
+                        seed_total += avg * n as f64;
+                    }
+                    off += n;
+                }
+                fmt_total += seed_total;
+                if std::env::args().any(|a| a == "-v") {
+                    println!("   {:<55} {:>8} cases  {:>8.1} cpu-s", sp.seeds[k].name, x.len(), seed_total);
+                }
+            }
+            println!("{:<10} {:>9} cases {:>8.1} cpu-s   {}", sp.fmt.name(), sp.len(), fmt_total, by_class.iter().map(|(k, v)| format!("{k}: {} cases {:.0} s ({:.2} ms)", v.1, v.0, v.0 / v.1.max(1) as f64 * 1e3)).collect::<Vec<_>>().join("; "));
+            grand += fmt_total;
+            grand_cases += sp.len();
+        }
+        println!("total {grand_cases} cases, predicted {grand:.0} cpu-s = {:.1} min on 16 idle cores", grand / 16.0 / 60.0);
+        return;
+    }
     if std::env::args().any(|a| a == "--check-seeds") {
         // run the unmodified seed of every (format, seed) and say what each entry point did (debug aid)
         let tier = if std::env::args().any(|a| a == "thorough") { Tier::Thorough } else { Tier::Quick };
